@@ -156,7 +156,7 @@ func c06At(env *fw.IntervalEnv, v ssa.Value, b *ssa.BasicBlock) fw.Interval {
 
 // c06ProvedNonNeg: env.ProvedNonNeg or proved by the extended facts.
 func c06ProvedNonNeg(env *fw.IntervalEnv, v ssa.Value, b *ssa.BasicBlock) bool {
-	if env.ProvedNonNeg(v, b) || c06At(env, v, b).NonNeg() {
+	if env.ProvedNonNegDeep(v, b) || c06At(env, v, b).NonNeg() {
 		return true
 	}
 	return fw.ProvesFrom(c06Facts(env.Poly, b), fw.Cmp{P: env.Poly.Of(v), Rel: fw.GE})
